@@ -8,6 +8,11 @@ HOOK_COMMITS = ["204cfe3", "2edc694", "e1d8638"]
 
 # id -> (category, technique, level text, level note, design ref)
 CHECKS = {
+ "C08": ("exploration",
+         "differential runtime oracle: the same document multiset built by 13 physical recipes, every build answering the same generated requests, canonical answers compared pairwise against the one-batch build",
+         "For generated corpora (including the empty one) every recipe (batch partitioning, ice v1/v2, optimisations off, merge-happy memory/disk, reopen, Backup+OpenReader, OfflineWriter, histories with deletions, MultiSearch over partitions, score mode none) must give the same id multiset, stored fields, distinct-key order and aggregations, and bit-comparable scores when neither side has merged segments or pending deletions. Held on the corpora, recipes and requests explored.",
+         "Trusts: canonicalisation (ties under field sorts compared as sets; terms size above vocabulary). Layout differences are measured through the hook (segment counts) so that 'different layout' is not assumed.",
+         "DESIGN.md §4 C08"),
  "C17": ("exploration",
          "metamorphic runtime oracles on real scores (direct similarity calls on boundary statistics, metamorphic corpora, per-query-type boost ratios, compound = boost x sum of separately searched parts) and an evaluator of every explanation node's stated formula",
          "Scores produced by the real similarity and searchers are checked for finiteness/positivity and the four monotonicity/linearity laws on boundary statistics and on constructed corpora; every explanation tree returned for generated query trees is re-evaluated node by node from its message templates and compared with the unexplained score. Held on the statistics, corpora and queries explored; eight listed findings (idf message, boost handling of six query types, non-positive fuzzy scores) are reported as KNOWN-FINDING.",
